@@ -1,7 +1,7 @@
 (* C08 -- polar coordinates of a direction in a fundamental sector, over R:
    the polar coordinate is in [0,1] for every direction of the closed sector,
    1 at the centre, 0 on the boundary; the north pole has azimuth 0. *)
-From Coq Require Import Reals ZArith Lra Lia Bool List Psatz.
+From Coq Require Import Reals ZArith Lra Lia Bool List.
 From Verif Require Import Scalar RInst C08Color Quat C08Model Atan2 C08ColorP.
 Import ListNotations.
 Local Open Scope R_scope.
@@ -57,7 +57,7 @@ Proof. vunf. replace (0 * 0 + 0 * 0 + 0 * 0) with 0 by ring. apply sqrt_0. Qed.
 Lemma vunit_zero : vunit ROps (0, 0, 0) = (0, 0, 0).
 Proof.
   unfold vunit. rewrite vnorm_of_zero. rsimpl.
-  destruct (Reqb 0 0) eqn:E; [reflexivity|]. apply Reqb_false in E. lra.
+  destruct (Reqb 0 0) eqn:E; [reflexivity|]. apply Reqb_false in E. exfalso. apply E. reflexivity.
 Qed.
 
 Lemma vnorm_unit1 (a : Rv) : dot a a = 1 -> vnorm ROps a = 1.
@@ -74,9 +74,9 @@ Proof.
   assert (Hsq : vnorm ROps a * vnorm ROps a = dot a a).
   { rewrite vnorm_eq. apply sqrt_sqrt. apply dot_self_nonneg. }
   exists (/ vnorm ROps a). split; [apply Rinv_0_lt_compat; exact Hp|].
-  unfold vunit. rsimpl.
-  destruct (Reqb (vnorm ROps a) 0) eqn:E; [apply Reqb_true in E; contradiction|].
-  set (n := vnorm ROps a) in *. clearbody n. vd.
+  unfold vunit. set (n := vnorm ROps a) in *. clearbody n. rsimpl.
+  destruct (Reqb n 0) eqn:E; [apply Reqb_true in E; contradiction|].
+  vd. cbv beta iota.
   split.
   - cbv [vscale]. rsimpl. tup; field; exact Hn.
   - cbv [dot vdot] in *. rsimpl.
@@ -100,3 +100,212 @@ Proof.
   apply andb_true_iff in H. destruct H as [H Hz]. apply andb_true_iff in H. destruct H as [Hx Hy].
   apply Reqb_true in Hx, Hy, Hz. subst. cbv [dot vdot] in Hu. revert Hu. rsimpl. lra.
 Qed.
+
+Lemma is_zero_zero : is_zero ROps (0, 0, 0) = true.
+Proof. cbv [is_zero]. rsimpl. destruct (Reqb 0 0) eqn:E; [reflexivity|]. apply Reqb_false in E. exfalso. apply E. reflexivity. Qed.
+
+Lemma cauchy (a b : Rv) : dot a a = 1 -> dot b b = 1 -> -1 <= dot a b <= 1.
+Proof.
+  destruct a as [[a1 a2] a3], b as [[b1 b2] b3]. vunf. intros Ha Hb.
+  pose proof (Rle_0_sqr (b1 - a1)). pose proof (Rle_0_sqr (b2 - a2)). pose proof (Rle_0_sqr (b3 - a3)).
+  pose proof (Rle_0_sqr (b1 + a1)). pose proof (Rle_0_sqr (b2 + a2)). pose proof (Rle_0_sqr (b3 + a3)).
+  unfold Rsqr in *.
+  split; lra.
+Qed.
+
+Lemma dot_neg_self (a : Rv) : dot (vneg ROps a) (vneg ROps a) = dot a a.
+Proof. vd. vunf. ring. Qed.
+
+(* fold of minimum *)
+Lemma fold_min_bounds lo hi : forall (l : list R) acc,
+  lo <= acc <= hi -> (forall x, In x l -> lo <= x <= hi) ->
+  lo <= fold_left (o_min ROps) l acc <= hi.
+Proof.
+  induction l as [|x l IH]; intros acc Ha Hl; [exact Ha|].
+  simpl. apply IH.
+  - rewrite o_minR. pose proof (Hl x (or_introl eq_refl)). unfold Rmin. destruct Rle_dec; lra.
+  - intros y Hy. apply Hl. right. exact Hy.
+Qed.
+
+Lemma fold_min_le : forall (l : list R) acc,
+  fold_left (o_min ROps) l acc <= acc /\ (forall x, In x l -> fold_left (o_min ROps) l acc <= x).
+Proof.
+  induction l as [|x l IH]; intros acc; [split; [simpl; lra | intros ? []]|].
+  simpl. destruct (IH (o_min ROps acc x)) as [H1 H2]. rewrite o_minR in *.
+  pose proof (Rmin_l acc x). pose proof (Rmin_r acc x).
+  split; [lra|]. intros y [<- | Hy]; [lra | apply H2; exact Hy].
+Qed.
+
+Lemma minl_bounds lo hi (l : list R) : l <> [] -> (forall x, In x l -> lo <= x <= hi) -> lo <= minl ROps l <= hi.
+Proof.
+  destruct l as [|x l]; [congruence|]. intros _ H. unfold minl.
+  apply fold_min_bounds; [apply H; left; reflexivity | intros y Hy; apply H; right; exact Hy].
+Qed.
+
+Lemma fold_min_lower lo : forall (l : list R) acc,
+  lo <= acc -> (forall x, In x l -> lo <= x) -> lo <= fold_left (o_min ROps) l acc.
+Proof.
+  induction l as [|x l IH]; intros acc Ha Hl; [exact Ha|].
+  simpl. apply IH.
+  - rewrite o_minR. pose proof (Hl x (or_introl eq_refl)). unfold Rmin. destruct Rle_dec; lra.
+  - intros y Hy. apply Hl. right. exact Hy.
+Qed.
+
+(* over R the "infinity" start value of an empty minimum is 0 *)
+Lemma minl_lower (l : list R) : (forall x, In x l -> 0 <= x) -> 0 <= minl ROps l.
+Proof.
+  destruct l as [|x l]; intros H; [simpl; rsimpl; lra|]. unfold minl.
+  apply fold_min_lower; [apply H; left; reflexivity | intros y Hy; apply H; right; exact Hy].
+Qed.
+
+Lemma minl_le (l : list R) x : In x l -> minl ROps l <= x.
+Proof.
+  destruct l as [|y l]; [intros []|]. unfold minl. destruct (fold_min_le l y) as [H1 H2].
+  intros [<- | Hx]; [exact H1 | apply H2; exact Hx].
+Qed.
+
+Section Polar.
+Variable rd : Rnd (T:=R).
+Hypothesis rmono : forall x y, x <= y -> r10 rd x <= r10 rd y.
+Hypothesis r_one : r10 rd 1 = 1.
+Hypothesis r_mone : r10 rd (-1) = -1.
+
+Lemma r_range x : -1 <= x <= 1 -> -1 <= r10 rd x <= 1.
+Proof. intros [H1 H2]. pose proof (rmono _ _ H1). pose proof (rmono _ _ H2). lra. Qed.
+
+Lemma angle_with_unit (a b : Rv) : dot a a = 1 -> dot b b = 1 ->
+  angle_with ROps rd a b = acos (r10 rd (dot a b)).
+Proof.
+  intros Ha Hb. unfold angle_with. rewrite (vnorm_unit1 a Ha), (vnorm_unit1 b Hb). unfold dot. rsimpl.
+  f_equal. f_equal. field.
+Qed.
+
+Lemma angle_with_bound (a b : Rv) : 0 <= angle_with ROps rd a b <= PI.
+Proof. unfold angle_with. rsimpl. apply acos_bound. Qed.
+
+(* each term of the minimum is >= 0, whatever the vectors *)
+Lemma polar_ratio_nonneg (c v vcn n : Rv) : 0 <= polar_ratio ROps rd c v vcn n.
+Proof.
+  unfold polar_ratio. cbv zeta.
+  destruct (is_zero ROps (vunit ROps (vcross ROps vcn n))); [rsimpl; lra|].
+  set (A := angle_with ROps rd (vneg ROps v) _). set (B := angle_with ROps rd (vneg ROps c) _).
+  pose proof (angle_with_bound (vneg ROps v) (vunit ROps (vcross ROps vcn n))) as HA.
+  pose proof (angle_with_bound (vneg ROps c) (vunit ROps (vcross ROps vcn n))) as HB.
+  fold A in HA. fold B in HB. clearbody A B. rsimpl.
+  destruct (Reqb B 0) eqn:E; [destruct (Reqb A 0); lra|].
+  apply Reqb_false in E. apply Rmult_le_pos; [lra | left; apply Rinv_0_lt_compat; lra].
+Qed.
+
+(* key inequality: for unit v, c and a normal n with n.v + n.c >= 0 the ratio is <= 1 *)
+Lemma polar_ratio_le1 (c v n : Rv) : dot c c = 1 -> dot v v = 1 -> 0 <= dot n v + dot n c ->
+  polar_ratio ROps rd c v (vunit ROps (vcross ROps v c)) n <= 1.
+Proof.
+  intros Hc Hv Hn. unfold polar_ratio. cbv zeta.
+  destruct (is_zero ROps (vunit ROps (vcross ROps (vunit ROps (vcross ROps v c)) n))) eqn:Z; [rsimpl; lra|].
+  (* both cross products are non-zero *)
+  assert (Hw : vcross ROps v c <> (0, 0, 0)).
+  { intro E. rewrite E, vunit_zero in Z.
+    replace (vcross ROps (0, 0, 0) n) with ((0, 0, 0) : Rv) in Z by (vd; vunf; tup; ring).
+    rewrite vunit_zero, is_zero_zero in Z. discriminate. }
+  destruct (vunit_nonzero _ Hw) as (k2 & Hk2 & E2 & _).
+  assert (Hm : vcross ROps (vunit ROps (vcross ROps v c)) n <> (0, 0, 0)).
+  { intro E. rewrite E, vunit_zero, is_zero_zero in Z. discriminate. }
+  destruct (vunit_nonzero _ Hm) as (k1 & Hk1 & E1 & U1).
+  set (bp := vunit ROps (vcross ROps (vunit ROps (vcross ROps v c)) n)) in *.
+  rewrite !angle_with_unit by (rewrite ?dot_neg_self; assumption).
+  pose proof (cauchy (vneg ROps v) bp) as CA. pose proof (cauchy (vneg ROps c) bp) as CB.
+  rewrite dot_neg_self in CA, CB. specialize (CA Hv U1). specialize (CB Hc U1).
+  pose proof (cauchy v c Hv Hc) as Ct.
+  assert (Hle : dot (vneg ROps c) bp <= dot (vneg ROps v) bp).
+  { assert (Hd : dot (vneg ROps v) bp - dot (vneg ROps c) bp
+                 = k1 * k2 * ((dot n v + dot n c) * (1 - dot v c))).
+    { rewrite E1, E2. clear - Hc Hv.
+      destruct c as [[c1 c2] c3], v as [[v1 v2] v3], n as [[n1 n2] n3]. vunf.
+      transitivity (k1 * k2 * ((n1 * v1 + n2 * v2 + n3 * v3) * (c1 * c1 + c2 * c2 + c3 * c3)
+                               + (n1 * c1 + n2 * c2 + n3 * c3) * (v1 * v1 + v2 * v2 + v3 * v3)
+                               - (n1 * v1 + n2 * v2 + n3 * v3 + (n1 * c1 + n2 * c2 + n3 * c3)) * (v1 * c1 + v2 * c2 + v3 * c3))).
+      - ring.
+      - rewrite Hc, Hv. ring. }
+    assert (0 <= k1 * k2 * ((dot n v + dot n c) * (1 - dot v c))).
+    { apply Rmult_le_pos; [nra|]. apply Rmult_le_pos; lra. }
+    lra. }
+  pose proof (rmono _ _ Hle) as Hr.
+  pose proof (r_range _ CA) as RA. pose proof (r_range _ CB) as RB.
+  assert (HAB : acos (r10 rd (dot (vneg ROps v) bp)) <= acos (r10 rd (dot (vneg ROps c) bp)))
+    by (apply acos_antitone; lra).
+  pose proof (acos_bound (r10 rd (dot (vneg ROps v) bp))) as BA.
+  pose proof (acos_bound (r10 rd (dot (vneg ROps c) bp))) as BB.
+  set (A := acos (r10 rd (dot (vneg ROps v) bp))) in *.
+  set (B := acos (r10 rd (dot (vneg ROps c) bp))) in *. clearbody A B. rsimpl.
+  destruct (Reqb B 0) eqn:E; [destruct (Reqb A 0); lra|].
+  apply Reqb_false in E. apply Rmult_le_reg_r with B; [lra|].
+  unfold Rdiv. rewrite Rmult_assoc, Rinv_l by lra. lra.
+Qed.
+
+Theorem polar_of_nonneg (sec : sector (T:=R)) (v : Rv) : 0 <= polar_of ROps rd sec v.
+Proof.
+  unfold polar_of. cbv zeta.
+  destruct (forallb _ (s_normals sec)).
+  - pose proof (angle_with_bound (vunit ROps (s_center sec)) v). rsimpl.
+    apply Rmult_le_pos; [lra | left; apply Rinv_0_lt_compat; apply PI_RGT_0].
+  - apply minl_lower. intros x Hx. apply in_map_iff in Hx. destruct Hx as (m & <- & _).
+    apply polar_ratio_nonneg.
+Qed.
+
+(* the polar coordinate of a unit vector of the closed sector (n.v + n.c >= 0
+   for every normal covers the sector and its 1e-9 tolerance band) is in [0,1] *)
+Theorem polar_of_range (sec : sector (T:=R)) (v : Rv) :
+  s_center sec <> (0, 0, 0) -> dot v v = 1 ->
+  (forall n, In n (s_normals sec) -> 0 <= dot n v + dot n (vunit ROps (s_center sec))) ->
+  0 <= polar_of ROps rd sec v <= 1.
+Proof.
+  intros Hc Hv Hn. split; [apply polar_of_nonneg|].
+  destruct (vunit_nonzero _ Hc) as (k & _ & _ & Uc).
+  unfold polar_of. cbv zeta.
+  destruct (forallb _ (s_normals sec)) eqn:F.
+  - pose proof (angle_with_bound (vunit ROps (s_center sec)) v). rsimpl.
+    apply Rmult_le_reg_r with PI; [apply PI_RGT_0|]. unfold Rdiv. rewrite Rmult_assoc, Rinv_l; [lra|].
+    pose proof PI_RGT_0; lra.
+  - destruct (s_normals sec) as [|n l] eqn:E; [simpl in F; discriminate|].
+    apply Rle_trans with (polar_ratio ROps rd (vunit ROps (s_center sec)) v
+              (vunit ROps (vcross ROps v (vunit ROps (s_center sec)))) n).
+    + apply minl_le. left. reflexivity.
+    + apply polar_ratio_le1; auto. apply Hn. left. reflexivity.
+Qed.
+
+(* hence every direction of the sector gets a proper RGB colour, for every
+   azimuth-correction table *)
+Theorem color_in_sector_range (sec : sector (T:=R)) (tbl : list (R * R)) (h : Rv) :
+  s_center sec <> (0, 0, 0) -> h <> (0, 0, 0) ->
+  (forall n, In n (s_normals sec) ->
+     0 <= dot n (vunit ROps h) + dot n (vunit ROps (s_center sec))) ->
+  rgb01 (color_in_sector ROps rd sec tbl h).
+Proof.
+  intros Hc Hh Hn. unfold color_in_sector, polar_coordinates. cbv zeta.
+  destruct (vunit_nonzero _ Hh) as (k & _ & _ & Uh).
+  apply color_of_polar_range.
+  pose proof (polar_of_range sec (vunit ROps h) Hc Uh Hn). lra.
+Qed.
+
+(* the centre: every term of the minimum is 1 *)
+Theorem polar_of_center (sec : sector (T:=R)) :
+  forallb (fun n => o_eqb ROps (vdot ROps n (vunit ROps (s_center sec))) (o_ofZ ROps 0)) (s_normals sec) = false ->
+  polar_of ROps rd sec (vunit ROps (s_center sec)) = 1.
+Proof.
+  intros F. unfold polar_of. cbv zeta. rewrite F.
+  set (c := vunit ROps (s_center sec)).
+  assert (H1 : forall n, polar_ratio ROps rd c c (vunit ROps (vcross ROps c c)) n = 1).
+  { intros n. unfold polar_ratio. cbv zeta.
+    replace (vcross ROps c c) with ((0, 0, 0) : Rv) by (destruct c as [[? ?] ?]; vunf; tup; ring).
+    rewrite vunit_zero.
+    replace (vcross ROps (0, 0, 0) n) with ((0, 0, 0) : Rv) by (vd; vunf; tup; ring).
+    rewrite vunit_zero, is_zero_zero. reflexivity. }
+  destruct (s_normals sec) as [|n l]; [simpl in F; discriminate|].
+  apply Rle_antisym.
+  - apply Rle_trans with (polar_ratio ROps rd c c (vunit ROps (vcross ROps c c)) n);
+      [apply minl_le; left; reflexivity | rewrite H1; lra].
+  - apply (minl_bounds 1 1); [discriminate|]. intros x Hx. apply in_map_iff in Hx.
+    destruct Hx as (m & <- & _). rewrite H1. lra.
+Qed.
+
+End Polar.
